@@ -38,7 +38,7 @@ ASSUMPTIONS = [
 REAL_VS_STUB = {"real": ["molli.chem.ensemble.ConformerEnsemble / Conformer", "_serialize_ens_v2/_deserialize_ens_v2 + msgpack", "dumps_mol2/dumps_xyz"],
                 "stub": ["caller tasks (generators stepped by the seeded scheduler)"]}
 PROBES = ["iter_plain", "iter_nested", "iter_zip", "iter_restart", "two_or_more_tasks_interleaved", "mutator_between_nexts", "append", "extend_list",
-          "extend_ens", "extend_oneshot_iterable", "held_view_checked_after_mutation", "refused_append_or_extend", "copy_construct", "rebuild_from_conformers", "slice", "write_through_conformer", "serialise_roundtrip", "conformer_dump",
+          "extend_ens", "extend_oneshot_iterable", "held_view_checked_after_mutation", "refused_append_or_extend", "atom_relabelled_between_stores", "copy_construct", "rebuild_from_conformers", "slice", "write_through_conformer", "serialise_roundtrip", "conformer_dump",
           "empty_ensemble_iterated"]
 
 TEMPLATES = {
@@ -73,7 +73,7 @@ def gen_plan(r, tier, index):
             mut = []
             if r.random() < 0.5:
                 for _ in range(r.choice([1, 2, 4])):
-                    mut.append({"op": r.choice(["scale", "translate", "translate2", "rotate", "invert", "center_atom", "write", "write_elem", "write_charge", "dump", "serialise"]),
+                    mut.append({"op": r.choice(["scale", "translate", "translate2", "rotate", "invert", "center_atom", "write", "write_elem", "write_charge", "relabel", "dump", "serialise", "serialise"]),
                                 "a": r.randrange(1 << 16)})
             phases.append({"type": "iter", "tasks": tasks, "mutator": mut, "sched_seed": r.randrange(1 << 30),
                            "strategy": r.choice(["random", "random", "round_robin", "sticky"])})
@@ -104,6 +104,33 @@ class _V(Exception):
 
 
 def run_plan(plan, trace=False):
+    """Object identity is behind a seam here too (see stubs.jobsim.SimId): ensembles and molecules are created and
+    released all the time in these histories; code that remembers something per id(obj) meets address reuse every time."""
+    import molli.chem.ensemble as _ens_mod
+    import molli.chem.io as _io_mod
+
+    from ..core.seams import reset_process_state
+    from ..stubs.jobsim import SimId
+
+    sid = SimId()
+    saved = [(m_, m_.__dict__.get("id", None)) for m_ in (_io_mod, _ens_mod)]
+    for m_, _o in saved:
+        m_.id = sid
+    reset_process_state()
+    try:
+        return _run_plan(plan, trace)
+    finally:
+        for m_, o_ in saved:
+            if o_ is None:
+                try:
+                    del m_.id
+                except AttributeError:
+                    pass
+            else:
+                m_.id = o_
+
+
+def _run_plan(plan, trace=False):
     import molli as ml
     import msgpack
     from molli.chem.io import _deserialize_ens_v2, _serialize_ens_v2
@@ -120,6 +147,7 @@ def run_plan(plan, trace=False):
         raise _V()
 
     st = {"ens": None, "mc": None, "mq": None, "mw": None, "sources": []}
+    serial = [0]
 
     def check_inv(where):
         ens, mc = st["ens"], st["mc"]
@@ -162,6 +190,10 @@ def run_plan(plan, trace=False):
             viol("serialised-shapes-differ", f"{where}: {back.coords.shape} {back.atomic_charges.shape} {back.weights.shape}")
         if not np.allclose(back.coords, mc, rtol=1e-5, atol=1e-4, equal_nan=True):
             viol("serialised-coordinates-differ", f"{where}: coordinates changed beyond float32 precision in the round trip")
+        lab_now = [(a_.element.z, a_.label) for a_ in ens.atoms]
+        lab_back = [(a_.element.z, a_.label) for a_ in back.atoms]
+        if lab_now != lab_back or back.name != ens.name:
+            viol("serialised-atoms-differ", f"{where}: the serialised ensemble has atoms {lab_back[:6]} name {back.name!r}; the ensemble has {lab_now[:6]} name {ens.name!r}")
 
     try:
         # ------------------------------------------------------------ construction
@@ -197,6 +229,8 @@ def run_plan(plan, trace=False):
             if n0:
                 ens.coords = C0[:n0]
             mc = C0[:n0].copy() if n0 else np.zeros((0, na, 3))
+        for j_, a_ in enumerate(ens.atoms):
+            a_.label = f"{a_.element.symbol}{j_}v0"
         st["ens"], st["mc"] = ens, mc
         check_inv("after construction")
         check_usable("after construction")
@@ -279,6 +313,12 @@ def run_plan(plan, trace=False):
                     for c in sl:
                         if not np.allclose(c.coords, mc[c._conf_id], equal_nan=True):
                             viol("slice-not-a-view-of-its-row", f"ens[{a}:{b}] conformer {c._conf_id} does not show row {c._conf_id}")
+                if op in ("copy", "rebuild"):
+                    # every ensemble object of the history is recognisable by its atom labels
+                    serial[0] += 1
+                    for j_, a_ in enumerate(ens.atoms):
+                        a_.label = f"{a_.element.symbol}{j_}v{serial[0]}"
+                    ens.name = f"ens_v{serial[0]}"
                 st["ens"], st["mc"] = ens, mc
                 check_inv(f"after {op}")
                 check_usable(f"after {op}")
@@ -471,6 +511,13 @@ def _mutate(mo, st, res, viol, na, ser, deser, msgpack):
         R = np.array([[0.0, -1.0, 0.0], [1.0, 0.0, 0.0], [0.0, 0.0, 1.0]])
         ens.rotate(R)
         mc[:] = mc @ R
+    elif op == "relabel":
+        # constitution-level edits between two stores: what is serialised must be what the ensemble is NOW
+        if na == 0:
+            return
+        j = a % na
+        ens.atoms[j].label = f"relab{a}"
+        res.stats["probe:atom_relabelled_between_stores"] += 1
     elif op == "invert":
         ens.invert()
         mc *= -1.0
@@ -534,6 +581,10 @@ def _mutate(mo, st, res, viol, na, ser, deser, msgpack):
         res.stats["probe:serialise_roundtrip"] += 1
         if back.coords.shape != (nc, na, 3):
             viol("serialised-shapes-differ", f"{back.coords.shape}")
+        lab_now = [(a_.element.z, a_.label) for a_ in ens.atoms]
+        lab_back = [(a_.element.z, a_.label) for a_ in back.atoms]
+        if lab_now != lab_back or back.name != ens.name:
+            viol("serialised-atoms-differ", f"the serialised ensemble has atoms {lab_back[:6]} name {back.name!r}; the ensemble has {lab_now[:6]} name {ens.name!r}")
 
 
 def shrink_candidates(plan):
